@@ -233,6 +233,17 @@ func polFor(version int) int {
 
 func freshWorld(seed uint64, of *os.File, version int, fam string) *world.World {
 	sc := &Schedule{Pol: map[string]int{"A": polFor(version), "B": polFor(version)}, Ver: map[string]int{}, Fam: fam}
+	if of == nil {
+		w := world.New(seed, nil)
+		for _, n := range []string{"A", "B"} {
+			peer := "B"
+			if n == "B" {
+				peer = "A"
+			}
+			w.AddParty(n, peer, world.PolicyFromBits(sc.Pol[n]), 0)
+		}
+		return w
+	}
 	return newWorld(sc, seed, of)
 }
 
